@@ -43,6 +43,7 @@ inductive Err
   | pathBounds      -- AssertionError in `_path_operator`
   | pathType        -- ValueError('Path undefined between plaquettes of different types …')
   | badNode         -- a cluster match names an object that is not a node / unpacking `None`
+  | oddDefective    -- AssertionError: odd number of defective clusters (rotated toric `_cluster_graph`)
   deriving DecidableEq, Repr
 
 /-! ## `_graph` -/
@@ -402,5 +403,121 @@ def matchingsOk (fl : Flags) (R C : Int) (rows : List BVec) (ms : List (Node × 
      match clusterNodes R C rows.length cls with
      | .error _ => false
      | .ok ns => isPerfectMatchingOfGraph (List.range ns.length) (clusterEdges ns) cms)
+
+/-! ## `RotatedToricSMWPMDecoder` (`_rotatedtoricsmwpmdecoder.py`)
+
+  Shared verbatim with the planar decoder (same Python text; `is_x_plaquette` is the same formula on both codes):
+  `_clusters` (`clusters`), `_cluster_to_paths_and_defect` (`splitCluster`), the pairing of successive X / Z indices
+  (`allClusterPairs`), the `_ClusterNode`s made per cluster (`realNodes`).  Different: the lattice is periodic — no
+  virtual nodes, no twin edges, `_graphs` yields one graph per line (infinite bias) or one graph for all nodes (finite
+  bias) and `_matching` unites the matchings; paths are `RotatedToricPauli.path`; the cluster graph has no corner /
+  extra nodes and asserts an even number of defective clusters; no match is skipped in the cluster stage.
+  The t-parity bookkeeping and the result constructor are Model/Ftp.lean (C03). -/
+namespace Toric
+
+/-- lines of `_plaquette_indices`: rows `y = max_y … 0`, each `x = 0 … max_x`; columns are the transpose -/
+def lines (R C : Int) (byRow : Bool) : List (List Idx2) :=
+  if byRow then
+    (List.range R.toNat).map fun (j : Nat) => (List.range C.toNat).map fun (i : Nat) => ((i : Int), R - 1 - (j : Int))
+  else
+    (List.range C.toNat).map fun (i : Nat) => (List.range R.toNat).map fun (j : Nat) => ((i : Int), R - 1 - (j : Int))
+
+def isDefect (R C : Int) (rows : List BVec) (t : Nat) (xy : Idx2) : Bool :=
+  decide (xy ∈ RotatedToric.syndromeToPlaquettes R C (rows.getD t []))
+
+def lineNodes (R C : Int) (rows : List BVec) (byRow : Bool) (line : List Idx2) : List Node :=
+  line.flatMap fun xy => (List.range rows.length).filterMap fun (t : Nat) =>
+    if isDefect R C rows t xy then some (((t : Int), xy.1, xy.2), byRow) else none
+
+def passNodes (R C : Int) (rows : List BVec) (byRow : Bool) : List Node :=
+  (lines R C byRow).flatMap (lineNodes R C rows byRow)
+
+def graphNodes (R C : Int) (rows : List BVec) : List Node :=
+  passNodes R C rows true ++ passNodes R C rows false
+
+/-- union of the keys of the graphs `_graphs` yields -/
+def graphEdges (fl : Flags) (R C : Int) (rows : List BVec) : List (Node × Node) :=
+  if fl.etaNone then
+    [true, false].flatMap fun byRow => (lines R C byRow).flatMap fun line =>
+      (pairsOf (lineNodes R C rows byRow line)).filter fun p => addEdgeOk fl p.1 p.2
+  else (pairsOf (graphNodes R C rows)).filter fun p => addEdgeOk fl p.1 p.2
+
+/-- `new_pauli().path(a, b).to_bsf()` -/
+def pathOp (R C : Int) (a b : Idx2) : Except Err BVec :=
+  match RotatedToric.path R C (RotatedToric.identity R C) a b with
+  | .ok v => .ok v
+  | .error _ => .error .pathType
+
+def applyPairs (R C : Int) : List (TIdx × TIdx) → BVec → Except Err BVec
+  | [], v => .ok v
+  | (a, b) :: ps, v =>
+    match pathOp R C (sp a) (sp b) with
+    | .error e => .error e
+    | .ok o => applyPairs R C ps (xorV v o)
+
+/-- the `_ClusterNode`s in creation order; empty graph without a defective cluster; `assert` on an odd number -/
+def clusterNodes (cls : List (List TIdx)) : Except Err (List ClNode) :=
+  match realNodes cls with
+  | .error e => .error e
+  | .ok ns =>
+    if nDefective ns = 0 then .ok []
+    else if nDefective ns % 2 ≠ 0 then .error .oddDefective
+    else .ok ns
+
+/-- every pair of nodes is an edge -/
+def clusterEdges (ns : List ClNode) : List (Nat × Nat) := pairsOf (List.range ns.length)
+
+def matchPairs (ns : List ClNode) (m : Nat × Nat) : Except Err (List (TIdx × TIdx)) :=
+  match ns[m.1]?, ns[m.2]? with
+  | some a, some b => .ok [(a.x, b.x), (a.z, b.z)]
+  | _, _ => .error .badNode
+
+def allMatchPairs (ns : List ClNode) : List (Nat × Nat) → Except Err (List (TIdx × TIdx))
+  | [] => .ok []
+  | m :: ms =>
+    match matchPairs ns m with
+    | .error e => .error e
+    | .ok ps =>
+      match allMatchPairs ns ms with
+      | .error e => .error e
+      | .ok qs => .ok (ps ++ qs)
+
+/-- the operator of `_recovery_tparities(code, T, clusters)` -/
+def recovery (R C : Int) (cls : List (List TIdx)) : Except Err BVec :=
+  match allClusterPairs cls with
+  | .error e => .error e
+  | .ok ps => applyPairs R C ps (RotatedToric.identity R C)
+
+/-- the operator of `_cluster_recovery_tparities(code, T, cluster_matches)` -/
+def clusterRecovery (R C : Int) (ns : List ClNode) (cms : List (Nat × Nat)) : Except Err BVec :=
+  match allMatchPairs ns cms with
+  | .error e => .error e
+  | .ok ps => applyPairs R C ps (RotatedToric.identity R C)
+
+/-- the `recovery` of the `DecodeResult` returned by `decode_ftp` -/
+def decode (R C : Int) (ms : List (Node × Node)) (cms : List (Nat × Nat)) : Except Err BVec :=
+  match clusters ms with
+  | .error e => .error e
+  | .ok cls =>
+    match recovery R C cls with
+    | .error e => .error e
+    | .ok r1 =>
+      match clusterNodes cls with
+      | .error e => .error e
+      | .ok ns =>
+        match clusterRecovery R C ns cms with
+        | .error e => .error e
+        | .ok r2 => .ok (xorV (xorV (RotatedToric.identity R C) r1) r2)
+
+def matchingsOk (fl : Flags) (R C : Int) (rows : List BVec) (ms : List (Node × Node)) (cms : List (Nat × Nat)) : Bool :=
+  isPerfectMatchingOfGraph (graphNodes R C rows) (graphEdges fl R C rows) ms &&
+  (match clusters ms with
+   | .error _ => false
+   | .ok cls =>
+     match clusterNodes cls with
+     | .error _ => false
+     | .ok ns => isPerfectMatchingOfGraph (List.range ns.length) (clusterEdges ns) cms)
+
+end Toric
 
 end Qec.Smwpm
